@@ -197,7 +197,10 @@ add("C14", "E3 sock-mc (cancellation points) + E2", "model_checking",
     "future} — every cancellation point relative to every arrival position, repeated — then receives to completion: results must be "
     "exactly the peer's messages, in order, once. REQ: abandoned recv calls must leave the socket owing that recv (a new send fails "
     "with ReturnToSender, recv returns the reply to the outstanding request) with the reply arriving before / during / after the "
-    "abandoned call. The fair queue's part is additionally covered by E2's always-enabled spurious Poll.",
+    "abandoned call. Every recv call runs under a waker of its own that is dead once the call has been dropped (as when the socket "
+    "moves to another task); in a second variant the remaining bytes arrive only once the final call is parked, which is re-polled "
+    "only when its own waker fires. REP: every string of polled-and-dropped recv calls while a reply is owed. The fair queue's part "
+    "is additionally covered by E2's always-enabled spurious Poll (new receiver-waker generation per poll).",
     "DESIGN.md 5.14",
     "The cancellation point of a future is between two polls; each poll is atomic.",
     "exhaustive enumeration of cancellation points x arrival positions on the real sockets")
@@ -233,8 +236,9 @@ add("C17", "E4 rt-grid + E3 sock-mc", "model_checking",
     "another peer's registration was queued behind): the drop must return (a synchronous wait on a lock owned by a suspended task of "
     "the only thread is detected through a seam in the vendored saa crate and reported as thread-blocked), every connection half "
     "must be dropped and every library-spawned task completed by quiescence. E4 (real tokio runtime and real TCP v4 / v6 / IPC; OS "
-    "schedules not enumerated): the complete grid 9 types x 3 transports x 6 history prefixes x {close, drop} = 324 cases with "
-    "monotone conditions awaited up to 5 s: connects refused (at once after close() returns), IPC file gone, endpoint bindable "
+    "schedules not enumerated): the complete grid 9 types x 3 transports x 7 history prefixes (incl. a peer that stopped reading with "
+    "data stuck on the socket's side) x {close, drop} = 366 cases with "
+    "monotone conditions awaited up to 5 s: close() returns, connects refused (at once after close() returns), IPC file gone, endpoint bindable "
     "again, every established peer and every client parked in the handshake sees EOF, close() reports nothing, alive-task count back "
     "to baseline.",
     "DESIGN.md 5.17",
@@ -245,7 +249,8 @@ add("C17", "E4 rt-grid + E3 sock-mc", "model_checking",
 add("C18", "E4 rt-grid (private network namespaces)", "exploration",
     "Every operation sequence up to length 4 (thorough 5) over {bind TCP v4 / v6 / localhost port 0, bind IPC path, bind an already "
     "bound endpoint, unbind oldest, unbind unknown, connect in to every bound endpoint by its text form and exchange a message, "
-    "exchange on every established connection} on a real REP and a real PULL socket on the real tokio runtime, against a reference "
+    "exchange on every established connection, re-bind the endpoint unbound last, 150 clients closing in mid-handshake followed by a "
+    "well-behaved one} on a real REP and a real PULL socket on the real tokio runtime, against a reference "
     "model of the bind set; after EVERY operation: return values, binds() contents, every bound endpoint accepts and works, every "
     "unbound endpoint refuses at once, established connections survive. Bounded-exhaustive over operation histories, but OS "
     "scheduling is not enumerated, hence level 'exploration' rather than model checking. Worker processes run in private network "
@@ -260,7 +265,9 @@ add("C20", "E4 rt-grid (fault enumeration)", "fault_enumeration",
     "well-behaved clients connecting before, while and after. Oracle (monotone conditions, 5 s horizon): the client connecting "
     "meanwhile completes its handshake and a message exchange (for round-robin senders one send per well-behaved client must reach "
     "every one of them, so a half-handshaken connection in the rotation is detected); established traffic continues; the monitor "
-    "reports AcceptFailed for every client that closes mid-handshake and never more Accepted events than completed handshakes.",
+    "reports AcceptFailed for every client that closes mid-handshake and never more Accepted events than completed handshakes. Scale "
+    "family (not exhaustive in the counts): 1/8/64 (256) stalled clients, or 200 (600) closing / garbage clients, followed by 20 (100) "
+    "well-behaved clients one after the other.",
     "DESIGN.md 5.17",
     "Not owned: OS scheduling. 'Never completes' is observed as 'not within 5 s'.",
     "exhaustive fault-offset enumeration on the real runtime (schedules not enumerated)")
